@@ -35,10 +35,13 @@ def coq_case(c):
         obs = ["(%s, %s, %s)" % (core.cbytes(bytes(l["name"] or [])), tags(l["tags"]), core.cz(l["val"])) for l in c["finals"]]
         return "KCount %s %s" % (core.clist(ops), core.clist(obs))
     if k == "hist":
-        return "KHist %s %s %s %s %s %s" % (
+        ecs = c.get("exp_cs") or ["", ""]
+        return "KHist %s %s %s %s %s %s %s %s %s" % (
             core.clist([core.cfloat(b) for b in c["buckets"]]), core.clist([core.cfloat(v) for v in (c.get("vals") or [])]),
             core.cz(c["count"]), core.cfloat(c["sum"]), core.clist([core.cz(x) for x in c["counts"]]),
-            core.clist(["(%s, %s)" % (core.cfloat(p), core.cfloat(v)) for p, v in c["pcts"]]))
+            core.clist(["(%s, %s)" % (core.cfloat(p), core.cfloat(v)) for p, v in c["pcts"]]),
+            core.clist(["(%s, %s)" % (core.cfloat(p), core.cfloat(v)) for p, v in (c.get("exp") or [])]),
+            "(Some %s)" % core.cfloat(ecs[0]) if ecs[0] else "None", "(Some %s)" % core.cfloat(ecs[1]) if ecs[1] else "None")
     ops = []
     for o in c["mops"]:
         if o["search"]:
